@@ -46,14 +46,16 @@ pub fn evaluate_expression(expr: &str, facts: &Facts) -> Result<Value> {
     // No operator found - must be a single value
     // Could be: string literal, field reference (Order.quantity), number (100), or variable
 
-    // Is it a string literal?
-    if expr.len() >= 2 {
-        let unquoted = &expr[1..expr.len() - 1];
-        if (expr.starts_with('"') && expr.ends_with('"') && !unquoted.contains('"'))
-            || (expr.starts_with('\'') && expr.ends_with('\'') && !unquoted.contains('\''))
+    // Is it a string literal? (strip_prefix/strip_suffix: slicing at byte 1 would
+    // panic when the text starts or ends with a multi-byte character)
+    for quote in ['"', '\''] {
+        if let Some(unquoted) = expr
+            .strip_prefix(quote)
+            .and_then(|rest| rest.strip_suffix(quote))
         {
-            let unquoted = &expr[1..expr.len() - 1];
-            return Ok(Value::String(unquoted.to_string()));
+            if !unquoted.contains(quote) {
+                return Ok(Value::String(unquoted.to_string()));
+            }
         }
     }
 
